@@ -237,9 +237,9 @@ Qed.
 
 Lemma emits_plain s : forallb plain_emit (emits_of_text s) = true.
 Proof. apply emits_of_text_plain. Qed.
-Lemma sstep_plain_emits st f o r : sstep_plain st f o = Ok r -> forallb plain_emit (snd r) = true.
+Lemma sstep_plain_emits w st f o r : sstep_plain w st f o = Ok r -> forallb plain_emit (snd r) = true.
 Proof.
-  intros H. pose proof (plain_degrades_lemma 1 [o] st f (fst (fst r), snd (fst r), snd r ++ [])) as P.
+  intros H. pose proof (plain_degrades_lemma w [o] st f (fst (fst r), snd (fst r), snd r ++ [])) as P.
   cbn [srun] in P. rewrite H in P. cbn [bind fst snd srun] in P. specialize (P eq_refl). cbn [snd] in P.
   now rewrite app_nil_r in P.
 Qed.
